@@ -68,6 +68,36 @@ def _methods(ctx):
     return [m for m in c.methods.values()]
 
 
+def _deep_sinks(p, f, depth=2):
+    """(call site in f, command expression, function the expression belongs to) for every command that f hands to the
+    connector, directly or through a private helper of the same class it calls as self.<helper>(...): when the helper's
+    command is one of its parameters, the expression is the argument at the call site in f (inlining bound 2)."""
+    out = [(call, cmd, f) for call, cmd in command_sinks(f)]
+    if depth == 0:
+        return out
+    for c in f.calls():
+        if not (isinstance(c.func, ast.Attribute) and isinstance(c.func.value, ast.Name) and c.func.value.id == "self" and c.func.attr.startswith("_")):
+            continue
+        if c.func.attr in ("_test", "_get_inner_path"):
+            continue
+        for q in p.resolve_call(f, c, fanout=False):
+            h = p.functions.get(q)
+            if h is None or h is f or h.cls is None or f.cls is None or h.cls.qualname != f.cls.qualname:
+                continue
+            for _hc, cmd, owner in _deep_sinks(p, h, depth - 1):
+                if owner is h and isinstance(cmd, ast.Name) and cmd.id in h.params:
+                    a = h.node.args
+                    pos = [x.arg for x in a.posonlyargs + a.args]
+                    kw = {k.arg: k.value for k in c.keywords}
+                    idx = pos.index(cmd.id) - 1 if cmd.id in pos else -1
+                    arg = kw.get(cmd.id) if cmd.id in kw else (c.args[idx] if 0 <= idx < len(c.args) else None)
+                    if arg is not None:
+                        out.append((c, arg, f))
+                        continue
+                out.append((c, cmd, owner))
+    return out
+
+
 def r1(ctx):
     funcs = _methods(ctx) + [ctx.prog.func(f"{MOD}._size")]
     for f in funcs:
@@ -261,10 +291,10 @@ def r3(ctx):
         f = c.methods.get(name)
         ctx.require(f is not None, f"C24.R3: method {name} vanished")
         consts = []
-        sinks = list(command_sinks(f))
+        sinks = _deep_sinks(p, f)
         ctx.require(bool(sinks), f"C24.R3: {name} issues no command")
-        for call, cmd in sinks:
-            for fr in fragments(p, f, cmd):
+        for call, cmd, owner in sinks:
+            for fr in fragments(p, owner, cmd):
                 if fr.kind == "const":
                     consts.append(ast.literal_eval(fr.text))
         words = set()
@@ -288,7 +318,7 @@ def r3(ctx):
         f = c.methods[name]
         g = f.cfg
         sink_ids = set()
-        for call, _cmd in command_sinks(f):
+        for call, _cmd, _owner in _deep_sinks(p, f):
             sink_ids.update(g.node_containing(call))
         dl = _delegation(f)
         starts = g.real_succ(dl[0].id, "f" if dl[1] == "t" else "t") if dl else [g.entry]
@@ -336,7 +366,7 @@ def r3(ctx):
     ):
         f = c.methods[meth]
         conds = _flag_conditions(f, flag)
-        reaches = any(fr.kind == "const" and flag in str(ast.literal_eval(fr.text)).split() for _c, cmd in command_sinks(f) for fr in fragments(p, f, cmd))
+        reaches = any(fr.kind == "const" and flag in str(ast.literal_eval(fr.text)).split() for _c, cmd, owner in _deep_sinks(p, f) for fr in fragments(p, owner, cmd))
         ok = bool(conds) and reaches
         detail = "" if reaches else "the flag word never reaches the command"
         for cond in conds:
@@ -355,8 +385,8 @@ def r3(ctx):
     # symlink_to/hardlink_to: target precedes link name
     for name in ("symlink_to", "hardlink_to"):
         f = c.methods[name]
-        for call, cmd in command_sinks(f):
-            frs = [fr for fr in fragments(p, f, cmd) if fr.kind in ("dyn", "quoted")]
+        for call, cmd, owner in _deep_sinks(p, f):
+            frs = [fr for fr in fragments(p, owner, cmd) if fr.kind in ("dyn", "quoted")]
             texts = [fr.text for fr in frs]
             ti = [i for i, t in enumerate(texts) if "target" in t]
             si = [i for i, t in enumerate(texts) if "self" in t]
@@ -458,6 +488,15 @@ def r5(ctx):
                     outs.add(x.targets[0].elts[0].id)
         if not outs:
             continue
+        # locals derived from the command output (result.strip(), renamed copies, ...)
+        changed = True
+        while changed:
+            changed = False
+            for x in f.body_nodes():
+                if isinstance(x, ast.Assign) and len(x.targets) == 1 and isinstance(x.targets[0], ast.Name) and x.targets[0].id not in outs \
+                        and any(isinstance(y, ast.Name) and y.id in outs for y in ast.walk(x.value)):
+                    outs.add(x.targets[0].id)
+                    changed = True
         for c in f.calls():
             if isinstance(c.func, ast.Name) and c.func.id in ("int", "float") and c.args and any(isinstance(y, ast.Name) and y.id in outs for y in ast.walk(c.args[0])):
                 n += 1
